@@ -11,6 +11,22 @@ func checkDedupSpecific(c *Ctx, r *Report, pkg, tRC, tLim, tTask, tTrap string) 
 	// the task's state fields by role (names are resolved from the struct and from
 	// what the GC stores, so renaming them does not move the anchors)
 	fRun, fDel, taskFields := taskFieldRoles(c, pkg, tTask)
+	// the task's lock is its condition's Locker: reached as t.cond.L, or — when the
+	// condition is built over a mutex field of the task (sync.NewCond(&t.mu)) —
+	// through that field directly
+	taskLock := map[string]bool{"L": true, "?": true}
+	for _, fn := range c.FuncsIn(pkg) {
+		for _, cs := range callsInNamed(fn, "sync.NewCond") {
+			mentions(cs.Instr.Common().Args[0], func(v ssa.Value) bool {
+				if fa, ok := v.(*ssa.FieldAddr); ok && typeName(fa.X.Type()) == tTask {
+					if n, ok2 := fieldName(fa); ok2 {
+						taskLock[lastSeg(n)] = true
+					}
+				}
+				return false
+			}, 4)
+		}
+	}
 	// task state under cond.L
 	r2 := r.Rule("R2", "E-LOCK(cond.L)", "task.running/output/expiresAt/deleted are written only while the task's condition lock is held", 2)
 	for _, fn := range c.FuncsIn(pkg) {
@@ -32,7 +48,7 @@ func checkDedupSpecific(c *Ctx, r *Report, pkg, tRC, tLim, tTask, tTrap string) 
 				held := false
 				for k, m := range sets[st] {
 					// Lock through t.cond.L: key root is the cond (loaded from the task)
-					if m >= 2 && (k.mutex == "L" || k.mutex == "?") {
+					if m >= 2 && taskLock[k.mutex] {
 						held = true
 					}
 				}
@@ -242,7 +258,7 @@ func checkDedupSpecific(c *Ctx, r *Report, pkg, tRC, tLim, tTask, tTrap string) 
 			for _, st := range storesToField(gc, fDel) {
 				held := false
 				for k, m := range sets[st] {
-					if m >= 2 && (k.mutex == "L" || k.mutex == "?") {
+					if m >= 2 && taskLock[k.mutex] {
 						held = true
 					}
 				}
